@@ -417,6 +417,14 @@ func (r *replicatorActor) handleUpdate(ctx *ReceiveContext, msg updateCommand) {
 // handleGet reads the current value of a CRDT key.
 func (r *replicatorActor) handleGet(ctx *ReceiveContext, msg getCommand) {
 	keyID := msg.KeyID()
+
+	// a tombstoned key has no value until its tombstone expires: a coordinated
+	// read must not pull it back from peers that have not seen the tombstone yet
+	if _, ok := r.tombstones[keyID]; ok {
+		ctx.Response(msg.Response(nil))
+		return
+	}
+
 	data := r.store[keyID]
 
 	coordination := msg.ReadCoordination()
